@@ -8,7 +8,7 @@ EXPLANATION = (
     "unwrapped/indexed value) and must be in the audited table with its justification; where the justification is a dominating test the "
     "rule re-checks that test; an untabled reachable site is a violation; (R2) the cardinality access table of connection endpoints "
     "(atom/cluster definition x atom/indexed access) accepts exactly the in-range combinations; (R3) type-argument substitution replaces "
-    "every placeholder submodule of a binding (a loop over all submodules, not a single find). Decides these necessary conditions only; "
+    "every placeholder submodule of a binding (a loop over all submodules, not a single find); (R4) interface conformance compares whole gate definitions (identifier and cardinality); (R5) instantiation names submodule instances by the kind of their declaration (atom: bare name, cluster: name[k] for every k, also for size 1). Decides these necessary conditions only; "
     "not that the built simulation equals the description.")
 ASSUMPTIONS = ["serde_yml itself does not panic on malformed documents", "documents reach the front end only through serde (FromStr/Deserialize impls) and transform()"]
 
@@ -530,7 +530,81 @@ def r3_substitution(ctx):
                   {'loop_depth': depth, 'element': show(dst)[:160]})
 
 
+def r4_conformance(ctx):
+    """a type argument conforms to its bound only if it offers the bound's gates as declared — name AND cardinality (connections of the
+    generic module were expanded against the bound's gate clusters)"""
+    ctx.set_rule('C18.R4')
+    P = ctx.P
+    f = P.fns.get('des_net_utils::ndl::tree::Node::conform_to')
+    if f is None:
+        ctx.violation('anchor:conform_to', 'unresolved-anchor Node::conform_to'); return
+    ctx.touch(f)
+    scope = [f] + P.closures_of(f)
+    whole = False
+    by_name_only = []
+    for g in scope:
+        for s in g.calls():
+            last = s.name.split('::')[-1]
+            argt = [g.expr_operand(a, s.b, 'T') for a in s.args]
+            on_gates = any(any(x[0] == 'field' and x[2] == 'gates' for x in walk(resolve_captures(P, g, t))) for t in argt)
+            if last in ('is_subset', 'is_superset', 'contains') and on_gates:
+                whole = True
+            if last in ('eq', 'ne') and s.argtys and 'FieldDef' in s.argtys[0] and not s.argtys[0].lstrip('&').startswith('std::string'):
+                whole = whole or True
+            if last in ('eq', 'ne') and argt and all(peel(t)[0] == 'field' and peel(t)[2] == 'ident' for t in argt[:2]) and \
+                    any(str(peel(t)[3] if len(peel(t)) > 3 else '').endswith('FieldDef') for t in argt[:2]):
+                # a comparison of two FieldDef idents: is it about gates?
+                srcs = [resolve_captures(P, g, t) for t in argt[:2]]
+                if any(any(x[0] == 'field' and x[2] == 'gates' for x in walk(t)) or _closure_over_gates(P, f, g) for t in srcs):
+                    by_name_only.append(s)
+    ctx.check(whole and not by_name_only, 'conformance-compares-whole-gates',
+              'Node::conform_to requires the bound\'s gates to be present as declared (whole gate definitions: identifier and cardinality), not merely gates of the same name',
+              (by_name_only[0].where() if by_name_only else f.where()), {'whole_gate_test': whole, 'name_only_comparisons': len(by_name_only)})
+
+
+def _closure_over_gates(P, f, g):
+    """closure g (of f) is the callback of a traversal over a `gates` collection"""
+    if g is f:
+        return False
+    for h in [f] + P.closures_of(f):
+        for s in h.calls():
+            if len(s.args) == 2:
+                cb = peel(h.expr_operand(s.args[1], s.b, 'T'))
+                if cb[0] == 'agg' and str(cb[1]) == 'closure:' + g.key:
+                    src = resolve_captures(P, h, h.expr_operand(s.args[0], s.b, 'T'))
+                    if any(x[0] == 'field' and x[2] == 'gates' for x in walk(src)):
+                        return True
+    return False
+
+
+def r5_instantiation_naming(ctx):
+    """instantiation names submodule instances exactly as elaboration addresses them: `name` for an atom, `name[k]` for EVERY cluster
+    (also of size 1) — so whether an instance name carries an index must follow from the KIND of the declaration; a decision on the
+    numeric size (`as_size() > 1`) turns a cluster of one into a plain submodule that the expanded connections cannot find"""
+    ctx.set_rule('C18.R5')
+    P = ctx.P
+    fs = [g for g in P.fn_list if g.key.startswith('des::net::ndl::') and g.kind in ('fn', 'assocfn', 'closure')]
+    n = 0
+    for f in fs:
+        for s in f.calls():
+            if not s.name.endswith(('SimBuilderScoped::subscope', 'ObjectPath::appended', 'des::net::ndl::ndl', 'SimBuilder::ndl_at')) and not s.name.startswith('des::net::ndl::'):
+                continue
+            atoms = [a for _, a in f.guard_atoms(s.b)]
+            if not any(any(x[0] == 'field' and x[2] == 'submodules' for x in walk(a[1])) for a in atoms if a and a[0] in ('is', 'isnot') and isinstance(a[1], tuple)):
+                continue
+            n += 1
+            by_size = [a for a in atoms if a and a[0] == 'cmp' and any(x[0] == 'call' and x[1].endswith('Kardinality::as_size') for t_ in (a[2], a[3]) for x in walk(t_)) and
+                       any(peel(t_)[0] == 'int' for t_ in (a[2], a[3]))]
+            ctx.check(not by_size, 'instance-naming-by-kind:%s' % f.key.split('::')[-1],
+                      'whether a submodule instance is created as `name` or `name[k]` follows from the kind of its declaration (Atom / Cluster), never from a test of the cluster size',
+                      s.where(), [show_atom(a) for a in by_size])
+    if n == 0:
+        ctx.note('no submodule scope creation under a submodule traversal found in des::net::ndl (rule vacuous on this tree)')
+
+
 def run(ctx):
     r1_panic_inventory(ctx)
     r2_cardinality_table(ctx)
     r3_substitution(ctx)
+    r4_conformance(ctx)
+    r5_instantiation_naming(ctx)
